@@ -908,6 +908,8 @@ func (c *FnCtx) sentinelFacts(st *State, g *ssa.Global, v Val) {
 		return
 	}
 	st.assume(not(eq(v.S, "0")))
+	// created during package initialisation: older than anything allocated by the function
+	st.assume(sel(sym("alloc@0"), v.S))
 	for og, ov := range c.sentinels {
 		if og != g {
 			st.assume(not(eq(v.S, ov)))
